@@ -1,7 +1,10 @@
 package main
 
 import (
+	"strings"
+
 	"encoding/binary"
+	"gitlab.com/golang-commonmark/puny"
 	"math/rand"
 	"net"
 	"net/netip"
@@ -259,7 +262,20 @@ func ndpOption(r *rand.Rand, e map[string]interface{}, k int) []byte {
 		}
 	case 31:
 		binary.BigEndian.PutUint32(body[2:6], 600)
-		if len(body) >= 6+5 {
+		label := "lan"
+		switch str(e, "c") {
+		case "puny.long": // decodes to more octets than the wire form
+			label = puny.ToASCII(strings.Repeat("ä", 10+r.Intn(4)))
+		case "puny.short": // decodes to fewer octets
+			label = puny.ToASCII("m" + "ü" + "nchen")
+		case "puny.bad":
+			label = "xn--" + string(letters(r, 3)) + "-" + "9999"
+		}
+		dn := append([]byte{byte(len(label))}, label...)
+		dn = append(dn, 3, 'l', 'a', 'n', 0)
+		if len(body) >= 6+len(dn) {
+			copy(body[6:], dn)
+		} else if len(body) >= 6+5 {
 			copy(body[6:], []byte{3, 'l', 'a', 'n', 0})
 		}
 	default:
